@@ -87,6 +87,15 @@ def check_tree_pairs(spec, hists, acc):
                     from .c07 import reordered
 
                     fam.append(("the same tree with members named in the opposite order", o, core.mk(reordered(spec), hists[i])))
+                # the same content reached through in-place merges (asserted only where the documents are identical)
+                z, c, c2 = o.zero(), o.copy(), o.copy()
+                z += o
+                c += o.zero()
+                c2 += o
+                for nm_, x_, y_ in (("zero() += a", o, z), ("copy() += zero()", o, c), ("copy() += a vs a + a", o + o, c2),
+                                    ("zero() += a vs its copy()", z, z.copy())):
+                    if C.norm(x_.toJson()) == C.norm(y_.toJson()):
+                        fam.append((nm_, x_, y_))
                 im = hg.Factory.fromJson(docs[i])
                 fam.append(("JSON reload vs JSON reload", im, hg.Factory.fromJson(docs[i])))
                 fam.append(("JSON reload vs its copy()", im, im.copy()))
